@@ -294,5 +294,11 @@ def replay(prop: str, path: str) -> int:
     except ValueError as e:        # a payload without a concrete input (e.g. kind no-failing-input-found): not a verdict
         print(f"replay: {e}")
         return 2
+    if isinstance(ok, tuple):       # (holds?, signature of the failure): a recorded finding replays as KNOWN-FINDING, exit 0 — as in the check
+        ok, sig = ok
+        known, _ = load_findings()
+        if not ok and any(k.get("property") == prop and k.get("signature") == sig for k in known):
+            print(f"KNOWN-FINDING: property={prop} {sig} (this input reproduces the recorded finding, nothing else)")
+            return 0
     print("replay:", "property holds on this input" if ok else "property FAILS on this input")
     return 0 if ok else 1
